@@ -1063,9 +1063,9 @@ func TestCheck(t *testing.T) {
 	cfg := mon.Load("C20")
 	// millions of tiny short-lived builder objects, a few MB live: collect less often
 	debug.SetGCPercent(1600)
-	// of every 14 sampled cases: 3 random call sequences, 1 random sequence of late operations, 6 structures,
+	// of every 16 sampled cases: 2 constructions with builder calls after an earlier Compile (later_test.go), 3 random call sequences, 1 random sequence of late operations, 6 structures,
 	// 2 pass-through nodes between concrete and interface-typed neighbours, 1 waiting edges, 1 Compile again
-	nRandom := cfg.Pick(8400, 84000)
+	nRandom := cfg.Pick(9600, 96000)
 
 	var famDesc []string
 	for _, f := range families {
@@ -1077,7 +1077,7 @@ func TestCheck(t *testing.T) {
 		"(3) late operations on retained objects: %d well-formed scenarios (workflow with field mappings / static values / branch / nested graphs, graph with branches / nested graph, chain and workflow nodes, chain with parallel / branch / nested graphs), "+
 		"each compiled with up to 3 option sets (plain, interrupt-before, interrupt-after), then every pair (late operation, Compile variant) and (Compile variant, late operation)%s, where the late operations (%d in total) are "+
 		"every mutating method of every retained object (WorkflowNode handles incl. End(), Workflow, Graph, Chain, Parallel, ChainBranch, nested graphs) and every mutation of a retained argument (end-node maps incl. GetEndNode(), field-mapping slices, field paths, interrupt-node slices, option and callback slices) and of everything reachable from the *GraphInfo that a compile callback of every Compile is given and keeps (Edges, DataEdges, Branches, Nodes maps, the slices in them and in the node infos, the GraphInfo of nested graphs). "+
-		"SAMPLED: %d cases in the remaining children: of every 14, 2 sequences around a pass-through node (or two) between concretely typed producers and consumers declared with interface types (any, two method interfaces), the producer's type or a conflicting type, with branches whose condition reads such types, lowered in a random call / declaration order; "+
+		"SAMPLED: %d cases in the remaining children: of every 16, 2 constructions (chain of lambda / pass-through / nested-graph / parallel / branch / keyed stages, or a well-formed Graph / Workflow base program) with Compile calls in the middle and after the complete construction - with option sets that make Compile fail in the compile stage or good ones - followed by further Append* / Add* / AddInput / AddDependency / SetStaticValue / AddBranch calls and a Compile again, judged without the reference against the same builder calls with one Compile on fresh objects; 2 sequences around a pass-through node (or two) between concretely typed producers and consumers declared with interface types (any, two method interfaces), the producer's type or a conflicting type, with branches whose condition reads such types, lowered in a random call / declaration order; "+
 		"1 sequence of pass-through nodes that are connected to each other before anything tells their type and are typed later by branches (with two, one or no target, conditions over string / int / any), typed successors or their predecessor; "+
 		"1 structure with a Compile history (END connected only after a first Compile, a bad option set first, a Compile in the middle of the construction, Compile twice, nested graphs compiled standalone first; Workflows with branches and static values); "+
 		"3 random longer call sequences (mutated base programs, free sequences of 6..14 calls), 1 random sequence of 4..8 late operations and "+
@@ -1191,7 +1191,14 @@ func TestCheck(t *testing.T) {
 			rep.Count("enumerated_sequences", u.count)
 			return
 		}
-		switch k := (idx - int64(len(myUnits))) % 14; {
+		switch k := (idx - int64(len(myUnits))) % 16; {
+		case k >= 14:
+			lc := laterSeq(rng)
+			c.checkLater(lc)
+			if idx-int64(len(myUnits)) < 48 {
+				rep.Sample(lc)
+			}
+			return
 		case k >= 10:
 			var s *Seq
 			switch k {
